@@ -62,11 +62,11 @@ struct World {
   EngineDelegate del;
   std::unique_ptr<BuildEngine> engine;
   int mode = 0;             // 0 raw threads, 1 lane queue (2 lanes), 2 serial queue
-  bool discover = false;    // leaf a reports discovered dependency d
+  int discover = 0;         // 1: leaf a reports discovered dependency d; 2: and leaf b reports e (both from their own threads)
   std::vector<std::unique_ptr<std::thread>> workers;
   std::atomic<int> callbacksAfterReturn{0};
   std::atomic<bool> inBuild{false};
-  std::atomic<int> execA{0}, execB{0}, execD{0}, execR{0};
+  std::atomic<int> execA{0}, execB{0}, execD{0}, execE{0}, execR{0};
   std::string errors;
   bool cycle = false;
   Desc dA{"a"}, dB{"b"};
@@ -82,12 +82,12 @@ struct LeafTask : public Task {
   void provideValue(TaskInterface, uintptr_t, const KeyType&, const ValueType&) override { w.note(); }
   void inputsAvailable(TaskInterface ti) override {
     w.note();
-    (key == "a" ? w.execA : key == "b" ? w.execB : w.execD)++;
-    if (key == "d") { ti.complete(V("d")); return; }
+    (key == "a" ? w.execA : key == "b" ? w.execB : key == "e" ? w.execE : w.execD)++;
+    if (key == "d" || key == "e") { ti.complete(V(key)); return; }
     std::string k = key;
-    bool disc = w.discover && key == "a";
+    std::string disc = (w.discover >= 1 && key == "a") ? "d" : (w.discover >= 2 && key == "b") ? "e" : "";
     auto work = [ti, k, disc]() mutable {
-      if (disc) ti.discoveredDependency("d");
+      if (!disc.empty()) ti.discoveredDependency(disc);
       ti.complete(V(k));
     };
     if (w.mode == 0) w.workers.emplace_back(new std::thread(work));
@@ -149,7 +149,7 @@ static std::string buildOnce(World& w) {
   return s;
 }
 
-static void engineBody(BodyCtx& ctx, int mode, bool discover, bool canceller) {
+static void engineBody(BodyCtx& ctx, int mode, int discover, bool canceller) {
   World w(ctx);
   w.mode = mode;
   w.discover = discover;
@@ -163,8 +163,9 @@ static void engineBody(BodyCtx& ctx, int mode, bool discover, bool canceller) {
   if (w.cycle) ctx.fail("C06.false-cycle", "cycle reported in an acyclic build");
   if (!canceller) {
     if (v != expect) ctx.fail("C06.wrong-result", "build returned '" + v + "', expected '" + expect + "'");
-    if (w.execA != 1 || w.execB != 1 || w.execR != 1 || (discover && w.execD != 1))
-      ctx.fail("C06.executed-set-differs", "executions a=" + std::to_string(w.execA) + " b=" + std::to_string(w.execB) + " r=" + std::to_string(w.execR) + " d=" + std::to_string(w.execD));
+    if (w.execA != 1 || w.execB != 1 || w.execR != 1 || (discover >= 1 && w.execD != 1) || (discover >= 2 && w.execE != 1))
+      ctx.fail("C06.executed-set-differs", "executions a=" + std::to_string(w.execA) + " b=" + std::to_string(w.execB) + " r=" + std::to_string(w.execR) + " d=" + std::to_string(w.execD) +
+                                               " e=" + std::to_string(w.execE));
     ctx.outcome = v;
   } else {
     // A foreign cancellation may lose the race: then the result must be correct.
@@ -184,11 +185,12 @@ static void engineBody(BodyCtx& ctx, int mode, bool discover, bool canceller) {
   w.engine.reset();
 }
 
-void E1(BodyCtx& c) { engineBody(c, 0, false, false); }
-void E2(BodyCtx& c) { engineBody(c, 0, true, false); }
-void E3(BodyCtx& c) { engineBody(c, 0, false, true); }
-void E4(BodyCtx& c) { engineBody(c, 1, false, false); }
-void E5(BodyCtx& c) { engineBody(c, 1, false, true); }
+void E1(BodyCtx& c) { engineBody(c, 0, 0, false); }
+void E2(BodyCtx& c) { engineBody(c, 0, 1, false); }
+void E3(BodyCtx& c) { engineBody(c, 0, 0, true); }
+void E4(BodyCtx& c) { engineBody(c, 1, 0, false); }
+void E5(BodyCtx& c) { engineBody(c, 1, 0, true); }
+void E6(BodyCtx& c) { engineBody(c, 0, 2, false); }
 
 // ---------------------------------------------------------------------------
 // Execution queues: every job exactly once before destruction, never more in
@@ -306,6 +308,7 @@ const Body kBodies[] = {
     {"E3-engine-foreign-canceller", "C05 C06", 1, 2, false, E3},
     {"E4-engine-lane-queue", "C06", 1, 2, true, E4},
     {"E5-engine-lane-queue-canceller", "C05", 0, 1, false, E5},
+    {"E6-engine-two-threads-discover-unknown-keys", "C06", 1, 2, true, E6},
     {"Q1-lane-queue-2-lanes-4-jobs", "C16", 2, 3, true, Q1},
     {"Q2-lane-queue-canceller", "C16", 1, 2, false, Q2},
     {"Q3-serial-queue", "C16", 2, 3, true, Q3},
